@@ -363,6 +363,11 @@ func runC03(c *eng.Ctx) {
 	}
 	c.Floor(3)
 
+	// ---- R01.9 (shared with C01, C10): the segment a reader reads from comes from a lookup of its own position
+	c.Rule("R01.9", "K5")
+	ruleReaderSegment(c)
+	c.Floor(6)
+
 	// ---- R03.6 parked readers
 	c.Rule("R03.6", "K2")
 	if fn := c.Fn("server/commitlog.(*commitLog).newReaderCommitted"); fn != nil {
